@@ -8,7 +8,7 @@ EXTENDS Addr, Json
 Trace == ndJsonDeserialize("trace.ndjson")
 VARIABLE l
 
-Rep(tag, cond) == cond \/ PrintT(<<"DRIFT", l, tag>>)
+Rep(tag, cond) == IF cond THEN TRUE ELSE PrintT(<<"DRIFT", l, tag>>)
 ParseAgrees(r, o) ==
   /\ ~o.panic
   /\ r.ok = o.ok
